@@ -105,7 +105,7 @@ fn hex(b: &[u8]) -> String {
     b.iter().map(|x| format!("{:02x}", x)).collect()
 }
 
-const TOKENS: [&[u8]; 21] = [
+const TOKENS: [&[u8]; 33] = [
     b"ffffffffffffffff\r\n",
     b"7fffffffffffffff\r\n",
     b"8000000000000000;x\r\n",
@@ -127,6 +127,19 @@ const TOKENS: [&[u8]; 21] = [
     b":",
     b" ",
     b"\x00",
+    // list-valued fields in odd but parseable shapes: blank, empty and whitespace-only elements, stray commas
+    b"Connection: keep-alive, , close\r\n",
+    b"Connection: ,\r\n",
+    b"Connection: \t \r\n",
+    b"Connection: close ,\t, x\r\n",
+    b"Connection:,,close,,\r\n",
+    b"Transfer-Encoding: gzip, , chunked\r\n",
+    b"Transfer-Encoding: , chunked\r\n",
+    b"Transfer-Encoding: chunked, \r\n",
+    b"Content-Length: 5, \r\n",
+    b"Content-Length: , 5\r\n",
+    b"Content-Length:  \r\n",
+    b"Location: \r\n",
 ];
 
 /// Stage 'mutants': a valid exchange (C01's generator), 1..4 grammar-aware mutations, random schedule.
@@ -153,7 +166,7 @@ fn exec_mutants(t: &mut Tape, st: &mut Stats) -> Result<(), String> {
     let mut kinds = vec![];
     for _ in 0..nm {
         let len = server.len();
-        let kind = t.weighted(&[3, 3, 2, 2, 4, 2, 1, 1, 1, 2, 2, 2]);
+        let kind = t.weighted(&[3, 3, 2, 2, 4, 2, 1, 1, 1, 2, 2, 2, 3]);
         kinds.push(kind);
         match kind {
             0 => {
@@ -260,6 +273,33 @@ fn exec_mutants(t: &mut Tape, st: &mut Stats) -> Result<(), String> {
                     i += 1;
                 }
                 server = out;
+            }
+            12 => {
+                // reshape the value of one field line: list separators, blank / whitespace-only elements, padding
+                let starts: Vec<usize> = server.windows(2).enumerate().filter(|(_, w)| *w == b"\r\n").map(|(i, _)| i + 2).collect();
+                let lines: Vec<(usize, usize)> = starts
+                    .iter()
+                    .filter_map(|a| {
+                        let rest = &server[*a..];
+                        let end = rest.windows(2).position(|w| w == b"\r\n")?;
+                        let colon = rest[..end].iter().position(|b| *b == b':')?;
+                        Some((a + colon + 1, a + end))
+                    })
+                    .take(40)
+                    .collect();
+                if !lines.is_empty() {
+                    let (vs, ve) = *t.pick(&lines);
+                    let old: Vec<u8> = server[vs..ve].to_vec();
+                    let sep: &[u8] = *t.pick(&[&b", , "[..], b",", b" , ", b",,", b", \t ,", b" ", b"\t", b",  "]);
+                    let new: Vec<u8> = match t.below(5) {
+                        0 => [&old[..], sep, b"close"].concat(),
+                        1 => [b" keep-alive".as_ref(), sep, old.as_slice()].concat(),
+                        2 => [&old[..], sep].concat(),
+                        3 => sep.to_vec(),
+                        _ => [&old[..], sep, &old[..]].concat(),
+                    };
+                    server.splice(vs..ve, new);
+                }
             }
             11 => {
                 // k interim responses in front, bare or carrying fields
@@ -425,7 +465,7 @@ last-chunk line (on a redirect with an unresolvable Location), after 14 hex digi
 byte with 1..2-byte output buffers. random 'mutants': a valid exchange from C01's generator with 0..4 grammar-aware mutations (bit flip, \
 deletion, duplication, splice from a second exchange, token insertion at line starts - CRLF, lone CR / LF, 18 hex digits, Connection: \
 close, interim 100, bad Content-Length, unresolvable Location, NUL -, truncation, 100..140 extra fields, 64 KiB field names / values, \
-oversize numbers, one field line repeated 2..12 times, CRLF turned into bare LF, 1..8 interim responses with or without fields in front), the request configuration of that exchange, a random arrival / buffer schedule. enumeration 'five': all five \
+oversize numbers, one field line repeated 2..12 times, CRLF turned into bare LF, 1..8 interim responses with or without fields in front, a field value reshaped into a list with blank / whitespace-only elements and stray commas), the request configuration of that exchange, a random arrival / buffer schedule. enumeration 'five': all five \
 close conditions at once in six refusal shapes. thorough: libFuzzer (8 workers, dictionary, seed corpus, -max_len=8192) on the same \
 driver and oracle. Oracle: every server-facing call returns (no panic; overflow checks on) with Err or consumed <= offered and \
 produced <= space; produced bytes of a read are an in-order subsequence of the bytes it consumed; afterwards can_proceed / proceed / \
